@@ -101,6 +101,12 @@ func (c *regexpSimplifyChecker) simplify(pass int, pat string) string {
 		return ""
 	}
 
+	if c.hasQuantifiedNonAtom(re.Expr) {
+		// Go applies a quantifier that follows `(?i)` or `\Q\E` to the atom
+		// before them, this parser to the group (quote) itself:
+		// the two disagree about what `  (?i)*` or `a\Q\E{0}` mean.
+		return ""
+	}
 	if c.hasOctalEscape(re.Expr) {
 		// An octal escape takes as many digits as follow it:
 		// `\01{1}1` is not `\011`, `\0[1]` is not `\01`.
@@ -422,6 +428,24 @@ func (c *regexpSimplifyChecker) hasCountedRepeat(e syntax.Expr) bool {
 	}
 	for _, a := range e.Args {
 		if c.hasCountedRepeat(a) {
+			return true
+		}
+	}
+	return false
+}
+
+// hasQuantifiedNonAtom reports whether e contains a quantifier applied
+// to a flags-only group or to a `\Q...\E` quote.
+func (c *regexpSimplifyChecker) hasQuantifiedNonAtom(e syntax.Expr) bool {
+	switch e.Op {
+	case syntax.OpStar, syntax.OpPlus, syntax.OpQuestion, syntax.OpRepeat:
+		switch e.Args[0].Op {
+		case syntax.OpFlagOnlyGroup, syntax.OpQuote:
+			return true
+		}
+	}
+	for _, a := range e.Args {
+		if c.hasQuantifiedNonAtom(a) {
 			return true
 		}
 	}
